@@ -44,6 +44,8 @@ def run(ctx, chk):
     chk.rule('presence-frame', 'scheme / authority presence fields are NULLed only in the revert routine, whose every call is followed by '
              'a failure return on all paths', floor=8)
     chk.rule('essential-dot', 'relative mode: "." dropped only if not the current head, or last, or next segment scanned without ":"', floor=2)
+    chk.rule('trailing-dot', 'a "." that is the last segment and not the head is never released (it becomes the empty segment that '
+             'stands for the trailing slash), in either mode', floor=2)
     chk.rule('updir-kept', 'relative mode: ".." dropped only with an existing predecessor established not to be ".."', floor=2)
     chk.rule('nonempty-relative', 'relative mode, no host established: the removal loop neither releases the last remaining segment nor '
              'leaves the empty placeholder as the only segment', floor=2)
@@ -133,6 +135,7 @@ def run(ctx, chk):
     chk.analysed['reachable_functions'] = nfun
     chk.analysed['dot_removal_sites'] = rule_dot_removal(ctx, chk, {'essential-dot': 'essential-dot', 'updir-kept': 'updir-kept',
                                                                      'new-head-colon': 'essential-dot',
+                                                                     'trailing-dot': 'trailing-dot',
                                                                      'nonempty-relative': 'nonempty-relative'})
     chk.assumptions += ['C04: the recomposed text starts with "/" iff the absolute-path flag is set or a host precedes segments',
                         'C08: what normalisation does to the characters of each component (case, percent-encoding) is decided there']
